@@ -505,6 +505,62 @@ pub fn native_subjects(prop: &str) -> Vec<Subject> {
             (bx(b), o)
         }));
     }
+    // Clock recovery with the optional clock output in use: two outputs that
+    // can have different amounts of room.
+    {
+        let data = test_floats(64);
+        let mk = |block: &str, build: crate::envcheck::BuildFn| Subject {
+            block: block.to_string(),
+            variant: "sps=4 +clock output".to_string(),
+            quantum: 4,
+            build,
+            starts: native_starts(CF, CF),
+            ref_pages: 1,
+            spec: None,
+            infinite_source: false,
+            horizon: 0,
+            no_retire_check: false,
+            warmup: vec![],
+            horizon_delta: 0,
+            prefix_spec: false,
+            sync_check: false,
+        };
+        let d1 = data.clone();
+        v.push(mk(
+            "ZeroCrossing",
+            Box::new(move |st| {
+                verif::clear_stream_specs();
+                let (ip, r) = sin(st, d1.clone(), vec![]);
+                plan_out(st, 2);
+                let (mut b, o) = ZeroCrossing::new(r, 4.0, 0.5);
+                let c = b.out_clock();
+                verif::clear_stream_specs();
+                Instance {
+                    block: bx(b),
+                    ins: vec![ip],
+                    outs: vec![sout(st, o), sout(st, c)],
+                }
+            }),
+        ));
+        let d2 = data.clone();
+        v.push(mk(
+            "SymbolSync",
+            Box::new(move |st| {
+                verif::clear_stream_specs();
+                let (ip, r) = sin(st, d2.clone(), vec![]);
+                plan_out(st, 2);
+                let f = rustradio::iir_filter::IirFilter::new(&[0.5, 0.5]);
+                let (mut b, o) = SymbolSync::new(r, 4.0, 0.5, Box::new(rustradio::symbol_sync::TedZeroCrossing::new()), Box::new(f));
+                let c = b.out_clock().expect("clock output");
+                verif::clear_stream_specs();
+                Instance {
+                    block: bx(b),
+                    ins: vec![ip],
+                    outs: vec![sout(st, o), sout(st, c)],
+                }
+            }),
+        ));
+    }
     // AU encode / decode.
     {
         let data: Vec<f32> = vec![0.0, 0.5, -0.5, 1.0, -1.0, 0.25, 0.999, -0.001, 0.3];
@@ -569,14 +625,45 @@ pub fn native_subjects(prop: &str) -> Vec<Subject> {
         // `tail` is not documented (the block includes `tail` samples after
         // the end-marked one, but not the end-marked one itself): chunking and
         // verdicts only, no specification.
+        // A marker inside the tail of the previous burst ("flapping"), with
+        // more markers after it.
+        let t4: InTags = vec![
+            (2, "burst".into(), TagValue::Bool(true)),
+            (6, "burst".into(), TagValue::Bool(false)),
+            (7, "burst".into(), TagValue::Bool(true)),
+            (8, "burst".into(), TagValue::Bool(false)),
+            (12, "burst".into(), TagValue::Bool(true)),
+            (15, "burst".into(), TagValue::Bool(false)),
+        ];
+        v.push(s1p("StreamToPdu", "tail=2 marker inside the tail".into(), 2, data.clone(), t4, native_starts(CU8, CU8), |r| {
+            let (b, o) = StreamToPdu::new(r, "burst", 100, 2);
+            (bx(b), o)
+        }));
+        // A stray end marker, a burst longer than max_size, then a normal
+        // one; with a tail. (Chunking and verdicts only.)
+        let t3: InTags = vec![
+            (1, "burst".into(), TagValue::Bool(false)),
+            (4, "burst".into(), TagValue::Bool(true)),
+            (9, "burst".into(), TagValue::Bool(false)),
+            (13, "burst".into(), TagValue::Bool(true)),
+            (15, "burst".into(), TagValue::Bool(false)),
+        ];
+        v.push(s1p("StreamToPdu", "max=3 tail=2 stray end, overlong burst".into(), 2, data.clone(), t3, native_starts(CU8, CU8), |r| {
+            let (b, o) = StreamToPdu::new(r, "burst", 3, 2);
+            (bx(b), o)
+        }));
         v.push(s1p("StreamToPdu", "tail=2".into(), 2, data.clone(), t.clone(), native_starts(CU8, CU8), |r| {
             let (b, o) = StreamToPdu::new(r, "burst", 100, 2);
             (bx(b), o)
         }));
     }
-    // VecToStream: packets in, samples out, with start/end tags.
-    {
-        let pk: Vec<Vec<u8>> = vec![vec![1, 2, 3], vec![], vec![4], vec![5, 6]];
+    // VecToStream: packets in, samples out, with start/end tags. Several
+    // packet lists: the last packet is the one that matters at end of stream.
+    for (vname, pk) in [
+        ("4 packets", vec![vec![1u8, 2, 3], vec![], vec![4], vec![5, 6]]),
+        ("1 packet", vec![vec![1u8, 2, 3]]),
+        ("2 packets", vec![vec![1u8, 2], vec![3, 4, 5]]),
+    ] {
         let flat: Vec<u8> = pk.iter().flatten().copied().collect();
         let mut wt: Vec<ATag> = vec![];
         let mut pos = 0;
@@ -590,7 +677,7 @@ pub fn native_subjects(prop: &str) -> Vec<Subject> {
         let pk2 = pk.clone();
         v.push(Subject {
             block: "VecToStream".into(),
-            variant: "4 packets".into(),
+            variant: vname.into(),
             quantum: 3,
             build: Box::new(move |st| {
                 verif::clear_stream_specs();
